@@ -1090,6 +1090,7 @@ func run(r *chk.Run) {
 	// rows of tables whose id lies at the edges of the 4- / 6-byte id field
 	e2.RunTableIDs(r)
 	e2.RunScale(r, "big-events", "kept-cells")
+	e2.RunPartialImages(r)
 	if r.Violated() {
 		r.SetExhaustive(false)
 		return
@@ -1293,6 +1294,8 @@ func replay(kind string, input json.RawMessage) (bool, string) {
 		return e2.ReplayScale(input)
 	case "nest":
 		return e2.ReplayNest(input)
+	case "partial":
+		return e2.ReplayPartial(input)
 	case "jsonopaque":
 		var in struct {
 			FieldType int  `json:"field_type"`
